@@ -402,7 +402,7 @@ func fmtVerbs(f string) []byte {
 	return out
 }
 
-func leanStr(s string) string { return strconv.Quote(s) }
+func rsLeanStr(s string) string { return strconv.Quote(s) }
 
 func extractReasonSites(repo string) (string, error) {
 	fset := token.NewFileSet()
@@ -482,13 +482,13 @@ func extractReasonSites(repo string) (string, error) {
 	for i, r := range rows {
 		var as []string
 		for _, a := range r.args {
-			as = append(as, leanStr(a))
+			as = append(as, rsLeanStr(a))
 		}
 		sep := ","
 		if i == len(rows)-1 {
 			sep = ""
 		}
-		fmt.Fprintf(&b, "  ⟨%s, %s, %s, [%s]⟩%s  -- %s:%d\n", leanStr(r.fn), leanStr(r.field), leanStr(r.format), strings.Join(as, ", "), sep, r.file, r.line)
+		fmt.Fprintf(&b, "  ⟨%s, %s, %s, [%s]⟩%s  -- %s:%d\n", rsLeanStr(r.fn), rsLeanStr(r.field), rsLeanStr(r.format), strings.Join(as, ", "), sep, r.file, r.line)
 	}
 	b.WriteString("]\n\nend KinModel.Gen\n")
 	return b.String(), nil
